@@ -115,9 +115,9 @@ theorem finishMerge_keyed {sf : Flags} {sk : CompKind} {scs : List (Key × Node)
 def RecKeyed (rec : Node → Node → Except Err (Node × Bool)) : Prop :=
   ∀ a b r s, Keyed a = true → Keyed b = true → rec a b = .ok (r, s) → Keyed r = true
 
-theorem mergeStep_CS {rec : Node → Node → Except Err (Node × Bool)} (hrec : RecKeyed rec) {sf : Flags}
+theorem mergeStep_CS {exc : List Path} {rec : Node → Node → Except Err (Node × Bool)} (hrec : RecKeyed rec) {sf : Flags}
     {sk : CompKind} {acc acc' : List (Key × Node)} {kv : Key × Node} (hacc : CS sk acc)
-    (hkv : Keyed kv.2 = true) (h : mergeStep rec sf sk acc kv = .ok acc') : CS sk acc' := by
+    (hkv : Keyed kv.2 = true) (h : mergeStep rec sf sk exc acc kv = .ok acc') : CS sk acc' := by
   unfold mergeStep at h
   split at h
   · split at h
@@ -143,9 +143,9 @@ theorem mergeStep_CS {rec : Node → Node → Except Err (Node × Bool)} (hrec :
             · exact removeChildE_CS hacc h
             · exact setChild_CS hacc hnw h
 
-theorem mergeLoop_CS {rec : Node → Node → Except Err (Node × Bool)} (hrec : RecKeyed rec) (sf : Flags)
+theorem mergeLoop_CS {exc : List Path} {rec : Node → Node → Except Err (Node × Bool)} (hrec : RecKeyed rec) (sf : Flags)
     (sk : CompKind) : ∀ (acc ocs acc' : List (Key × Node)), CS sk acc → KeyedL ocs = true →
-    mergeLoop rec sf sk acc ocs = .ok acc' → CS sk acc'
+    mergeLoop rec sf sk exc acc ocs = .ok acc' → CS sk acc'
   | acc, [], acc', hacc, _, h => by simp only [mergeLoop] at h; cases h; exact hacc
   | acc, kv :: rest, acc', hacc, ho, h => by
     obtain ⟨k, v⟩ := kv
